@@ -19,12 +19,76 @@ ASSUMPTIONS = suite.ENGINE_ASSUMPTIONS + [
 ]
 
 
+def _resumed_runs(env: Env, out: Outcome, n: int, corpus: list[dict]) -> None:
+    """a run is stopped while it has pending work -- (a) ctx.to_dict() mid-run at a scheduler-chosen quiet point, then stopped;
+    (b) ctx.to_dict() after the run ended by a cancel, by its timeout or by a StopEvent racing with other work -- and a fresh
+    workflow is RESUMED from the JSON (Context.from_dict + run(ctx=...)).  The invocations the resumed run re-initiates at
+    start-up are step invocations like any other: the balance/order rules are applied to the resumed run's stream from its
+    first event, and the number of start-up announcements is recomputed from the snapshot."""
+    import copy
+    import random
+
+    from ..engine import live, specgen
+    rng = random.Random(env.rng.randrange(1 << 30))
+    jobs: list[tuple[dict, int, list | None, list | None]] = []
+    if env.replay is not None and isinstance(env.replay.get("payload", {}).get("case"), dict) and "resume" in env.replay["payload"]["case"]:
+        c = env.replay["payload"]["case"]["resume"]
+        jobs.append((c["spec"], c["seed"], c.get("actions1"), c.get("actions2")))
+    for item in corpus:
+        if "resume" in item:
+            c = item["resume"]
+            jobs.append((c["spec"], c["seed"], c.get("actions1"), c.get("actions2")))
+    for _ in range(n):
+        spec = specgen.gen_spec(rng, family=rng.choice(["general", "general", "fanin", "retry"]), allow_timeout=False)
+        spec["externals"] = [e for e in spec.get("externals", []) if e["op"] == "send"]
+        spec.pop("timeout", None)
+        how = rng.choice(["mid_run", "mid_run", "mid_run", "cancel", "timeout", "ended"])
+        if how == "mid_run":
+            spec["externals"].append({"op": "snapshot_stop", "after_quiet": rng.choice([0, 1, 1, 2, 2, 3, 4])})
+        else:
+            spec["snapshot_after_end"] = True
+            if how == "cancel":
+                spec["externals"].append({"op": "cancel", "after_quiet": rng.choice([0, 1, 2, 3])})
+            elif how == "timeout":
+                spec["timeout"] = rng.choice([1, 4, 10])
+        jobs.append((spec, rng.randrange(1 << 30), None, None))
+    resumed = []
+    for spec, seed, a1, a2 in jobs:
+        tr1 = live.run_spec(spec, seed=seed, replay_actions=a1)
+        out.evaluations += 1
+        snaps = [s for s in tr1.snapshots if s.get("stopped") or s.get("after_end")]
+        if not snaps or not isinstance(snaps[0]["dict"], dict):
+            out.count("resume:no_snapshot")
+            continue
+        d = snaps[0]["dict"]
+        nip = sum(len(w.get("in_progress", [])) for w in d.get("workers", {}).values())
+        nq = sum(len(w.get("queue", [])) for w in d.get("workers", {}).values())
+        kind = ("after_" + tr1.outcome[0]) if snaps[0].get("after_end") else "mid_run"
+        out.count(f"resume:{kind}:in_progress:{min(nip, 3)}:queued:{min(nq, 2)}")
+        if not (nip or nq):
+            continue  # nothing to re-initiate: the resumed run starts like a fresh one
+        spec2 = copy.deepcopy(spec)
+        spec2.pop("snapshot_after_end", None)
+        spec2.pop("timeout", None)
+        spec2["externals"] = copy.deepcopy([e for e in getattr(tr1, "remaining_externals", []) if e["op"] == "send"])
+        spec2["_resumed"] = True
+        tr2 = live.run_spec(spec2, seed=seed + 1, replay_actions=a2, resume_from=d)
+        resumed.append(tr2)
+        out.count("resume:outcome:" + tr2.outcome[0])
+        out.nontrivial(("resume", kind, repr(spec), tuple(tr1.actions), tuple(tr2.actions)))
+        case = {"resume": {"spec": spec, "seed": seed, "actions1": tr1.actions, "actions2": tr2.actions}}
+        for v in monitors.c35_resumed_announcements(tr2, d) + monitors.mon_c35(tr2):
+            v.replay = case
+            out.violations.append(v)
+    suite.runner_corr(out, resumed, "engine-runner-resumed")
+
+
 def run(env: Env) -> Outcome:
     out = Outcome()
     out.rule = ("direct (state,tick) pairs + live scripted workflows under random gate schedules; non-trivial = more than 2 ticks; "
                 "distinct by (spec, schedule)")
     suite.direct_corr(env, out, env.budget(3000, 60000))
-    suite.live_runs(env, out, env.budget(400, 8000), [monitors.mon_c35], extra_specs=suite.load_corpus("C35"))
+    suite.live_runs(env, out, env.budget(400, 8000), [monitors.mon_c35], extra_specs=[c for c in suite.load_corpus("C35") if "spec" in c])
 
     def _ire_consumer(spec: dict, rng) -> dict:
         """a step RETURNS an InputRequiredEvent subclass and another step, with zero-delay retries, CONSUMES it and fails once or
@@ -41,4 +105,6 @@ def run(env: Env) -> Outcome:
         return spec
 
     suite.live_runs(env, out, env.budget(120, 2400), [monitors.mon_c35], gen_kwargs={"family": "general"}, mutate_spec=_ire_consumer)
+    # last, so that the streams above are what they were before this family existed
+    _resumed_runs(env, out, env.budget(200, 4000), [c for c in suite.load_corpus("C35") if "resume" in c])
     return out
